@@ -326,6 +326,19 @@ theorem tags_consistent_filter_partial :
       (f.yaml = f.config ∨ (f.yaml = none ∧ some ((runes f.name).map asciiLower) = f.config.map runes) ∨ f.name = "NoNewPrivs") := by
   decide
 
+/-- **What the loader is told to insist on** (go-ucfg `validate` / `default` tags of the policy structs): a group's
+    action, an entry's name and its argument list and a condition's operation are `required` (a document that omits
+    one of them — in particular a `names_with_args` entry without `arguments`, which would compile to a rule
+    that can never match — is refused); argument index and value default to 0; nothing else is constrained. -/
+theorem required_fields :
+    (Gen.structTags.filter (fun st => policyStructs.contains st.1)).map
+        (fun st => (st.1, (st.2.filter (·.exported)).map (fun f => (f.name, f.validate, f.dflt)))) =
+      [("Policy", [("DefaultAction", none, none), ("Syscalls", none, none)]),
+       ("SyscallGroup", [("Names", none, none), ("NamesWithCondtions", none, none), ("Action", some "required", none)]),
+       ("NameWithConditions", [("Name", some "required", none), ("Conditions", some "required", none)]),
+       ("Condition", [("Argument", none, some "0"), ("Operation", some "required", none), ("Value", none, some "0")])] := by
+  decide
+
 /-- non-vacuity: the five structs are present with the expected numbers of fields -/
 theorem structs_present :
     Gen.structTags.map (fun st => (st.1, st.2.length)) =
